@@ -214,95 +214,7 @@ func runC13(c *Ctx, r *Rec) {
 		r.verdict("D1-capacity-at-birth", construct, c.pos(fd.Pos()), fmt.Sprintf("capacity >= number of values in the adopted list at the point of construction, on all integers (%d literal evaluations)", len(caps)), bad)
 	}
 	r.floor("D1-capacity-at-birth", 1)
-	// ---- D1b the storage of a new stack is made by the constructor, never adopted from an argument:
-	// a list the caller (or another stack) still holds can grow the stack past its capacity
-	for _, name := range sortedKeys(cms) {
-		fd := cms[name]
-		params := paramObjs(info, fd)
-		ast.Inspect(fd.Body, func(x ast.Node) bool {
-			cl, ok := x.(*ast.CompositeLit)
-			if !ok {
-				return true
-			}
-			if n := derefNamed(info.Types[cl].Type); n == nil || n.Origin() != stk.Origin() {
-				return true
-			}
-			for _, el := range cl.Elts {
-				kv, ok := el.(*ast.KeyValueExpr)
-				if !ok {
-					continue
-				}
-				id, _ := kv.Key.(*ast.Ident)
-				if id == nil {
-					continue
-				}
-				if fv, _ := info.Uses[id].(*types.Var); fv == nil || fv.Origin() != storage {
-					continue
-				}
-				construct := c.fdName(fd) + "/storage"
-				vo := identObj(info, kv.Value)
-				if vo == nil {
-					r.skip("D1-storage-owned", construct, c.pos(kv.Pos()), "the storage is not given as a variable")
-					continue
-				}
-				isParam := false
-				for _, p := range params {
-					if p == vo {
-						isParam = true
-					}
-				}
-				if isParam {
-					if ast.IsExported(name) {
-						r.fail("D1-storage-owned", construct, c.pos(kv.Pos()), "the new stack adopts the constructor's argument "+vo.Name()+" as its storage: the caller keeps a handle on it")
-					} else {
-						r.skip("D1-storage-owned", construct, c.pos(kv.Pos()), "a private helper receives the storage from its callers")
-					}
-					continue
-				}
-				bad := ""
-				ast.Inspect(fd.Body, func(y ast.Node) bool {
-					var rhs ast.Expr
-					switch d := y.(type) {
-					case *ast.AssignStmt:
-						for i, l := range d.Lhs {
-							if identObj(info, l) == vo {
-								if len(d.Rhs) == len(d.Lhs) {
-									rhs = d.Rhs[i]
-								} else if len(d.Rhs) == 1 {
-									rhs = d.Rhs[0]
-								}
-							}
-						}
-					case *ast.ValueSpec:
-						for i, nm := range d.Names {
-							if info.Defs[nm] == vo {
-								if len(d.Values) == len(d.Names) {
-									rhs = d.Values[i]
-								} else if len(d.Values) == 1 {
-									rhs = d.Values[0]
-								}
-							}
-						}
-					}
-					if rhs == nil {
-						return true
-					}
-					e := ast.Unparen(rhs)
-					if ta, ok := e.(*ast.TypeAssertExpr); ok {
-						e = ast.Unparen(ta.X)
-					}
-					for _, p := range params {
-						if isObj(info, e, p) {
-							bad = fmt.Sprintf("the storage %s of the new stack is the argument %s itself (at %s), not a copy made by the constructor: the caller, and every other stack built from the same list, shares it - values appear on the stack that were never added to it and it can grow past its capacity", vo.Name(), p.Name(), c.pos(rhs.Pos()))
-						}
-					}
-					return true
-				})
-				r.check(bad == "", "D1-storage-owned", construct, c.pos(kv.Pos()), "the storage is created in the constructor", bad)
-			}
-			return true
-		})
-	}
+	checkStorageOwned(c, r, "D1-storage-owned", info, stk, cls, storage)
 
 	// ---- D2 guards, D3 ends
 	ms := c.methodsOf(stk)
@@ -310,7 +222,9 @@ func runC13(c *Ctx, r *Rec) {
 	if fd := ms["AddValue"]; fd != nil {
 		construct := c.fdName(fd)
 		recv := recvObj(info, fd)
-		env := &symEnv{info: info, resolve: sizeResolver(info, recv, "size")}
+		env := &symEnv{info: info}
+		env.resolve = sizeResolverEnv(env, info, recv, "size")
+		enableInlining(c, env, fd, nil) // private predicates (isFull) are interpreted in place
 		env.base = Cube{sym("size").scale(-1), capSym.scale(-1)}
 		paths := symRun(env, fd.Body)
 		var viol []string
@@ -371,7 +285,9 @@ func runC13(c *Ctx, r *Rec) {
 	if fd := ms["RemoveTop"]; fd != nil {
 		construct := c.fdName(fd)
 		recv := recvObj(info, fd)
-		env := &symEnv{info: info, resolve: sizeResolver(info, recv, "size")}
+		env := &symEnv{info: info}
+		env.resolve = sizeResolverEnv(env, info, recv, "size")
+		enableInlining(c, env, fd, nil) // private predicates (isFull) are interpreted in place
 		env.base = Cube{sym("size").scale(-1)}
 		paths := symRun(env, fd.Body)
 		var viol []string
@@ -485,4 +401,127 @@ func initOf(info *types.Info, fd *ast.FuncDecl, id *ast.Ident) ast.Expr {
 		return init
 	}
 	return nil
+}
+
+// checkStorageOwned: the storage of a new collection is made by its constructor, never adopted
+// from an argument: a container the caller (or another collection) still holds would be shared.
+func checkStorageOwned(c *Ctx, r *Rec, rule string, info *types.Info, inst, cls *types.Named, storage *types.Var) {
+	cms := c.methodsOf(cls)
+	for _, name := range sortedKeys(cms) {
+		fd := cms[name]
+		params := paramObjs(info, fd)
+		// variables bound by a type switch over a parameter stand for that parameter
+		aliasOfParam := map[types.Object]types.Object{}
+		ast.Inspect(fd.Body, func(x ast.Node) bool {
+			ts, ok := x.(*ast.TypeSwitchStmt)
+			if !ok {
+				return true
+			}
+			as, ok := ts.Assign.(*ast.AssignStmt)
+			if !ok || len(as.Rhs) != 1 {
+				return true
+			}
+			ta, ok := ast.Unparen(as.Rhs[0]).(*ast.TypeAssertExpr)
+			if !ok {
+				return true
+			}
+			for _, p := range params {
+				if isObj(info, ta.X, p) {
+					for _, cl := range ts.Body.List {
+						if o := info.Implicits[cl]; o != nil {
+							aliasOfParam[o] = p
+						}
+					}
+				}
+			}
+			return true
+		})
+		paramOf := func(e ast.Expr) types.Object {
+			e = ast.Unparen(e)
+			if ta, ok := e.(*ast.TypeAssertExpr); ok {
+				e = ast.Unparen(ta.X)
+			}
+			o := identObj(info, e)
+			if o == nil {
+				return nil
+			}
+			for _, p := range params {
+				if p == o {
+					return p
+				}
+			}
+			return aliasOfParam[o]
+		}
+		ast.Inspect(fd.Body, func(x ast.Node) bool {
+			cl, ok := x.(*ast.CompositeLit)
+			if !ok {
+				return true
+			}
+			if n := derefNamed(info.Types[cl].Type); n == nil || n.Origin() != inst.Origin() {
+				return true
+			}
+			for _, el := range cl.Elts {
+				kv, ok := el.(*ast.KeyValueExpr)
+				if !ok {
+					continue
+				}
+				id, _ := kv.Key.(*ast.Ident)
+				if id == nil {
+					continue
+				}
+				if fv, _ := info.Uses[id].(*types.Var); fv == nil || fv.Origin() != storage {
+					continue
+				}
+				construct := c.fdName(fd) + "/storage"
+				if p := paramOf(kv.Value); p != nil {
+					if ast.IsExported(name) {
+						r.fail(rule, construct, c.pos(kv.Pos()), "the new collection adopts the constructor's argument "+p.Name()+" as its storage: the caller keeps a handle on it")
+					} else {
+						r.skip(rule, construct, c.pos(kv.Pos()), "a private helper receives the storage from its callers")
+					}
+					continue
+				}
+				vo := identObj(info, kv.Value)
+				if vo == nil {
+					r.skip(rule, construct, c.pos(kv.Pos()), "the storage is not given as a variable")
+					continue
+				}
+				bad := ""
+				ast.Inspect(fd.Body, func(y ast.Node) bool {
+					var rhs ast.Expr
+					switch d := y.(type) {
+					case *ast.AssignStmt:
+						for i, l := range d.Lhs {
+							if identObj(info, l) == vo {
+								if len(d.Rhs) == len(d.Lhs) {
+									rhs = d.Rhs[i]
+								} else if len(d.Rhs) == 1 {
+									rhs = d.Rhs[0]
+								}
+							}
+						}
+					case *ast.ValueSpec:
+						for i, nm := range d.Names {
+							if info.Defs[nm] == vo {
+								if len(d.Values) == len(d.Names) {
+									rhs = d.Values[i]
+								} else if len(d.Values) == 1 {
+									rhs = d.Values[0]
+								}
+							}
+						}
+					}
+					if rhs == nil {
+						return true
+					}
+					if p := paramOf(rhs); p != nil {
+						bad = fmt.Sprintf("the storage %s of the new collection is the argument %s itself (at %s), not a copy made by the constructor: the caller, and every other collection built from the same argument, shares it - values appear that were never added and a bound on the size can be exceeded", vo.Name(), p.Name(), c.pos(rhs.Pos()))
+					}
+					return true
+				})
+				r.check(bad == "", rule, construct, c.pos(kv.Pos()), "the storage is created in the constructor", bad)
+			}
+			return true
+		})
+	}
 }
